@@ -75,6 +75,9 @@ type c18Script struct {
 	// connection error code the server must close with
 	ConnErr uint64
 	NoCtrl  bool // the scripted peer does not open its own (well-formed) control stream first
+	// Observe: what the server does is recorded as an outcome class but not judged (RFC 9114
+	// and the code disagree or the RFC leaves the scope open); only "no panic" is demanded.
+	Observe bool
 }
 
 func c18SettingsBytes() []byte {
@@ -97,6 +100,12 @@ var c18Scripts = []c18Script{
 	{Name: "R2,H,D", Frames: "2HD", ConnErr: uint64(ErrCodeFrameUnexpected)},
 	{Name: "D,H,D", Frames: "DHD", ConnErr: uint64(ErrCodeFrameUnexpected)},
 	{Name: "H,S,D", Frames: "HSD", ConnErr: uint64(ErrCodeFrameUnexpected)},
+	// recorded, not judged: push-related frames on a request stream, DATA after trailers, GOAWAY
+	{Name: "H,D,CANCEL_PUSH", Frames: "HDc", Observe: true},
+	{Name: "H,D,PUSH_PROMISE", Frames: "HDp", Observe: true},
+	{Name: "H,D,MAX_PUSH_ID", Frames: "HDm", Observe: true},
+	{Name: "H,D,GOAWAY", Frames: "HDg", Observe: true},
+	{Name: "H,T,D", Frames: "HTD", Observe: true},
 	// unidirectional streams
 	{Name: "uni-unknown", Uni: [][]byte{append(quicvarint.Append(nil, c18UnknownType), []byte("0123456789")...)}},
 	{Name: "uni-unknown-fin", Uni: [][]byte{append(quicvarint.Append(nil, 0x21), []byte("01")...)}, FinLast: true},
@@ -158,6 +167,14 @@ func c18BuildFrames(letters string, idx int) c18RawModel {
 			m.frames = append(m.frames, c18Frame{T: 0x4})
 		case '2', '6', '8', '9':
 			m.frames = append(m.frames, c18Frame{T: uint64(l - '0'), P: []byte{0, 0, 0, 0, 0}})
+		case 'c':
+			m.frames = append(m.frames, c18Frame{T: 0x3, P: []byte{0x0}})
+		case 'p':
+			m.frames = append(m.frames, c18Frame{T: 0x5, P: []byte{0x0}})
+		case 'm':
+			m.frames = append(m.frames, c18Frame{T: 0xd, P: []byte{0x1}})
+		case 'g':
+			m.frames = append(m.frames, c18Frame{T: 0x7, P: []byte{0x0}})
 		}
 	}
 	m.body = all
@@ -558,6 +575,18 @@ func c18RawPeer(ctx context.Context, x *c18Exec, conn *quic.Conn, sc c18Script, 
 		expectConnErr("the request stream " + sc.Name)
 		return
 	}
+	if sc.Observe {
+		str.SetReadDeadline(time.Now().Add(5 * time.Second))
+		data, rerr := io.ReadAll(str)
+		if closed, _, code, _ := c18ConnErr(conn, 100*time.Millisecond); closed {
+			note("observed:conn-closed:%#x", code)
+		} else if rerr != nil {
+			note("observed:stream-error:%s", c18ErrClass(rerr))
+		} else {
+			note("observed:answered:%s", c18ParseResponse(data).status)
+		}
+		return
+	}
 	var data []byte
 	var rerr error
 	if readable {
@@ -641,7 +670,7 @@ func c18RawCases(e explore.Env) ([]c18RawCase, string) {
 	}
 	// aborts at every frame boundary of the permitted request scripts
 	for _, sc := range c18Scripts {
-		if sc.Uni != nil || sc.ConnErr != 0 {
+		if sc.Uni != nil || sc.ConnErr != 0 || sc.Observe {
 			continue
 		}
 		nf := len(sc.Frames)
